@@ -521,3 +521,138 @@ func readFileOr(args []string) string {
 	}
 	return ""
 }
+
+// ---------------------------------------------------------------------------
+// Position sweep: every operator x operand kinds, evaluated as a statement, as a rule pattern and as a
+// root selector (selectors are evaluated by an evaluator of their own).  Claim: ok or runtime error.
+
+var posOperands = []string{`1`, `0`, `(0 - 2.5)`, `"a"`, `"^a"`, `"("`, `""`, `"12"`, `true`, `null`, `[1, "a"]`, `[]`, `{a: 1}`, `/a+/`, `unsetv`, `$`, `$.kind`, `$[0]`, `$.items`, `fnv`}
+var posBinOps = []string{"+", "-", "*", "/", "%", "<", "<=", ">", ">=", "==", "!=", "~", "!~", "&&", "||", "is", " "}
+var posUnOps = []string{"!", "-", "+"}
+
+func checkC01Positions(c *Ctx) {
+	pool := c.Pool()
+	var exprs []string
+	for _, op := range posBinOps {
+		for _, a := range posOperands {
+			for _, b := range posOperands {
+				if op == "is" {
+					b = []string{"string", "number", "array", "object", "bool", "null", "regex", "unknown", "function", "nosuch"}[len(exprs)%10]
+				}
+				if op == "is" {
+					exprs = append(exprs, "("+a+") is "+b)
+					continue
+				}
+				exprs = append(exprs, "("+a+") "+op+" ("+b+")")
+			}
+		}
+	}
+	for _, op := range posUnOps {
+		for _, a := range posOperands {
+			exprs = append(exprs, op+" ("+a+")")
+		}
+	}
+	for _, a := range posOperands {
+		exprs = append(exprs, "match ("+a+") { 1 => \"one\", \"a\" => $.items, [x, y] => y, {a: q} => q, null => 0, _ => $ }",
+			"match ("+a+" ~ \"^a\") { true => $.items, false => $.other }", "("+a+").length()", "("+a+")[0]", "("+a+").a", "("+a+")[(0 - 1)]", "json("+a+")", "num("+a+")")
+	}
+	input := []byte(`[{"kind":"ab","items":[1,2],"other":[3]},["x",{"kind":"b"}],"abc",7,null]`)
+	var jobs []Job
+	for i, e := range exprs {
+		if !c.Thorough() && i%3 != int(c.Seed)%3 && !strings.Contains(e, "~") {
+			continue
+		}
+		pre := "function fnv(a) {\n  return a\n}\n"
+		jobs = append(jobs, Job{Kind: "run", Prog: []byte(pre + "{\n  r = " + e + "\n  print r\n}\n"), Files: []FileIn{{Name: "in.json", Data: input}}, Budget: 100000, Tag: "stmt: " + e})
+		jobs = append(jobs, Job{Kind: "run", Prog: []byte(pre + e + " {\n  print \"hit\"\n}\nEND {\n  print \"end\"\n}\n"), Files: []FileIn{{Name: "in.json", Data: input}}, Budget: 100000, Tag: "pattern: " + e})
+		jobs = append(jobs, Job{Kind: "run", Prog: []byte("{\n  print\n}\n"), Sels: []string{e}, Files: []FileIn{{Name: "in.json", Data: input}}, Budget: 100000, Tag: "selector: " + e})
+		jobs = append(jobs, Job{Kind: "run", Prog: []byte("{\n  print\n}\n"), Sels: []string{"$", e}, Files: []FileIn{{Name: "in.json", Data: input}, {Name: "b.json", Data: []byte(`{"kind":"a"} [1]`)}}, Budget: 100000, Tag: "selector2: " + e})
+	}
+	pool.Map(jobs, func(i int, r Result) {
+		switch r.Class {
+		case "ok", "runtime", "syntax":
+			c.Case("pos:"+jobs[i].Tag, r.Class != "syntax")
+		case "budget", "timeout":
+			c.Count("inconclusive", 1)
+		default:
+			c.Violation("position-"+r.Class, map[string]any{"where": jobs[i].Tag, "program": string(jobs[i].Prog), "selectors": jobs[i].Sels, "got_class": r.Class, "got_err_type": r.ErrType,
+				"got_err": r.ErrMsg, "detail": r.Detail, "why": "an operator applied to these operands must succeed or fail with a runtime error, wherever it is evaluated"})
+		}
+	})
+}
+
+// Recursion refused at every kind of frame push: the limit can be reached at a function call or at a
+// match expression, depending on how the recursion alternates between the two (parity).
+func checkC01LimitParity(c *Ctx) {
+	pool := c.Pool()
+	bodies := []string{
+		"return f(n + 1)",
+		"return match (n) { x => f(n + 1) }",
+		"match (n) { x => { return f(n + 1) } }",
+		"return match (n) { x => match (x) { y => f(y + 1) } }",
+		"return match (n) { x => { match (x) { y => { return f(y + 1) } } } }",
+		"for (q in [1]) { return f(n + 1) }",
+		"return match ([n]) { [x] => f(x + 1), _ => 0 }",
+	}
+	entries := []string{"f(0)", "match (0) { y => f(y) }", "match (0) { y => match (y) { z => f(z) } }", "match (0) { y => { f(y) } }", "match (0) { y => { match (y) { z => { f(z) } } } }",
+		"match (0) { y => match (y) { z => match (z) { w => f(w) } } }"}
+	var jobs []Job
+	for _, b := range bodies {
+		fn := "function f(n) {\n  " + b + "\n}\n"
+		for _, en := range entries {
+			for _, ctx := range []string{"BEGIN {\n  r = %s\n}\n", "{\n  r = %s\n}\nEND {\n  print \"end\"\n}\n", "%s {\n  print \"hit\"\n}\n", "END {\n  r = %s\n}\n", "BEGINFILE {\n  r = %s\n}\n"} {
+				jobs = append(jobs, Job{Kind: "run", Prog: []byte(fn + fmt.Sprintf(ctx, en)), Files: []FileIn{{Name: "in.json", Data: []byte(`[1]`)}}, Budget: 3_000_000, Tag: b + " | " + en})
+			}
+		}
+	}
+	pool.Map(jobs, func(i int, r Result) {
+		switch r.Class {
+		case "runtime":
+			c.Case("parity:"+string(jobs[i].Prog), true)
+		case "budget", "timeout":
+			c.Count("inconclusive", 1)
+		default:
+			c.Violation("limit-parity-"+r.Class, map[string]any{"program": string(jobs[i].Prog), "got_class": r.Class, "got_err_type": r.ErrType, "got_err": r.ErrMsg, "detail": r.Detail,
+				"why": "unbounded recursion must end in the runtime error of the call depth limit, whichever frame push (call or match) reaches the limit"})
+		}
+	})
+}
+
+// Parser state: a loop seen earlier in the text must not make a later break/continue outside any loop
+// acceptable (it would surface as a bare signal when executed).
+func checkC01StrayAfterLoop(c *Ctx) {
+	pool := c.Pool()
+	loops := []string{"for (v in $) { n++ }", "for (k, v in $) { n++ }", "while (n < 1) { n++ }", "for (i = 0; i < 1; i++) { n++ }", "while (n < 1) { for (v in $) { n++ } }",
+		"for (v in $) { while (0) { } }", "for (v in $) { for (w in $) { n++ } }", "if (1) { for (v in $) { n++ } }", "match (1) { _ => { for (v in $) { n++ } } }", "for (v in $) n++"}
+	strays := []string{"break", "continue"}
+	var jobs []Job
+	for _, l := range loops {
+		for _, s := range strays {
+			for _, shape := range []string{
+				"{\n  n = 0\n  %[1]s\n  %[2]s\n  print n\n}\n",
+				"{\n  n = 0\n  %[1]s\n  if (n < 100) { %[2]s }\n  print n\n}\n",
+				"{\n  n = 0\n  %[1]s\n}\n{\n  %[2]s\n}\n",
+				"function g() {\n  %[1]s\n}\n{\n  n = 0\n  g()\n  %[2]s\n}\n",
+				"function g() {\n  %[1]s\n}\nfunction h() {\n  %[2]s\n}\n{\n  n = 0\n  g()\n  h()\n}\n",
+				"BEGIN {\n  n = 0\n  %[1]s\n}\nEND {\n  %[2]s\n}\n",
+				"{\n  n = 0\n  %[1]s\n  r = match (1) { _ => { %[2]s } }\n}\n",
+			} {
+				jobs = append(jobs, Job{Kind: "run", Prog: []byte(fmt.Sprintf(shape, l, s)), Files: []FileIn{{Name: "in.json", Data: []byte(`[[1,2,3],[4]]`)}}, Budget: 100000, Tag: l + " ... " + s})
+			}
+		}
+	}
+	pool.Map(jobs, func(i int, r Result) {
+		switch r.Class {
+		case "syntax":
+			c.Case("stray:"+string(jobs[i].Prog), true)
+		case "budget", "timeout":
+			c.Count("inconclusive", 1)
+		case "ok", "runtime":
+			// accepted although outside a loop: that is C11's business, not a surfacing signal
+			c.Count("stray_accepted", 1)
+		default:
+			c.Violation("stray-"+r.Class, map[string]any{"program": string(jobs[i].Prog), "got_class": r.Class, "got_err_type": r.ErrType, "got_err": r.ErrMsg, "detail": r.Detail,
+				"why": "a break/continue outside every loop must not surface as an error of its own"})
+		}
+	})
+}
